@@ -1,4 +1,4 @@
-import WaVerif.Lemmas.C11Reach
+import WaVerif.Lemmas.C11Garbage
 /-!
 # C12 — discarded acyclic data is reclaimed: loops run in bounded heap
 
@@ -105,6 +105,33 @@ theorem cycle_leaks :
   have h12 := hrank 1 (by decide) 2 (by decide)
   have h21 := hrank 2 (by decide) 1 (by decide)
   omega
+
+/-- A set of blocks that nothing outside it refers to (no root, no field of an outside block) is never touched again:
+after ANY sequence of disciplined operations its members are still allocated, still unreferenced from outside, with
+unchanged contents. -/
+theorem garbage_never_freed {G : List Addr} {s : St} {ops : List Op} (ho : Owned s) (h : GInv G ⟨s, []⟩)
+    (hok : AllOk s ops) :
+    (∀ g ∈ G, g ∈ (applyAll s ops).live ∧ (applyAll s ops).blk g = s.blk g) ∧ GInv G ⟨applyAll s ops, []⟩ := by
+  obtain ⟨h1, s1⟩ := garbage_stays_all ho h hok
+  exact ⟨fun g hg => ⟨h1.live g hg, s1 g hg⟩, h1⟩
+
+/-- … in particular the dropped 2-cycle of `cycle_leaks` is never freed, whatever the program does afterwards. -/
+theorem cycle_never_freed (ops : List Op) (hok : AllOk (applyAll empty cycleOps) ops) :
+    1 ∈ (applyAll (applyAll empty cycleOps) ops).live ∧ 2 ∈ (applyAll (applyAll empty cycleOps) ops).live ∧
+    (applyAll (applyAll empty cycleOps) ops).blk 1 = ⟨1, [2]⟩ ∧ (applyAll (applyAll empty cycleOps) ops).blk 2 = ⟨1, [1]⟩ := by
+  have hok0 : AllOk empty cycleOps := by decide
+  have ho : Owned (applyAll empty cycleOps) := owned_applyAll owned_empty hok0
+  have hg : GInv [1, 2] ⟨applyAll empty cycleOps, []⟩ := by
+    refine ⟨by decide, by decide, by decide, by decide, ?_⟩
+    intro f hf; simp at hf
+  obtain ⟨hmem, _⟩ := garbage_never_freed ho hg hok
+  have h1 := hmem 1 (by simp)
+  have h2 := hmem 2 (by simp)
+  refine ⟨h1.1, h2.1, ?_, ?_⟩
+  · rw [h1.2]; decide
+  · rw [h2.2]; decide
+
+example : AllOk (applyAll empty cycleOps) [.alloc 7, .alloc 8, .store 7 8, .drop 7] := by decide
 
 /-- what is unreachable cannot be named by any disciplined operation: it is not `Held` -/
 theorem unreachable_not_held {s : St} (h : Owned s) {b : Addr} (hb : ¬ Reach s b) : ¬ Held s b := by
